@@ -85,13 +85,13 @@ fn main() {
             "body" => s_body::run(&a[3]),
             "memory" => s_memory::run(&a[3]),
             "epoll" => s_epoll::run(&a[3]),
-            "modes" | "modes09" | "modes10" => s_modes::run(&a[3]),
+            "modes" | "modes09" | "modes10" | "modes03" => s_modes::run(&a[3]),
             "pool" => s_pool::run(&a[3]),
             "poolsrv" => s_pool::run_srv(&a[3]),
             "printer" => s_printer::run(&a[3]),
             "conn" => s_conn::run(&a[3]),
             "readloop" => s_conn::run_readloop(&a[3]),
-            "segpair" => s_connexp::run_segpair(&a[3]),
+            "segpair" | "connpipe" => s_connexp::run_segpair(&a[3]),
             "conn05" | "conn07" | "conn09" | "conn10" => s_conn::run(&a[3]),
             "clientread" => s_conn::run_clientread(&a[3]),
             "prefix" | "prefixsafe" => s_parse::run_prefix(&a[3]),
@@ -123,12 +123,14 @@ fn main() {
         "epoll" => s_epoll::gen(&ctx),
         "modes" => s_modes::gen(&ctx),
         "modes09" => s_modes::gen09(&ctx),
+        "modes03" => s_modes::gen03(&ctx),
         "modes10" => s_modes::gen10(&ctx),
         "pool" => s_pool::gen(&ctx),
         "poolsrv" => s_pool::gen_srv(&ctx),
         "printer" => s_printer::gen(&ctx),
         "readloop" => s_conn::gen_readloop(&ctx),
         "segpair" => s_connexp::gen_segpair(&ctx),
+        "connpipe" => s_connexp::gen_pipe(&ctx),
         "conn05" => s_connexp::gen05(&ctx),
         "conn07" => s_connexp::gen07(&ctx),
         "conn09" => s_connexp::gen09(&ctx),
